@@ -85,6 +85,7 @@ type worldSpec struct {
 	Jump  int    `json:"jump"` // >0: state-sync world with that many source blocks
 	SSI   int    `json:"ssi"`
 	Quiet []int  `json:"quiet"` // [from, to]: heights generated as empty blocks
+	WI    *int   `json:"wi"`    // index the world had in the run that produced it (seeds derive from it; replays)
 }
 
 func variant(name string, gcp int) Variant {
@@ -100,7 +101,11 @@ func variant(name string, gcp int) Variant {
 }
 
 func runWorld(t *testing.T, res *vh.Result, tr *vh.Trace, wi int, ws worldSpec, workers int) {
-	w := &World{T: t, Res: res, Tr: tr, WI: wi, Net: chainkit.NewNet(5, 3), SRIH: ws.SRIH, MTB: uint32(ws.MTB),
+	gi := wi
+	if ws.WI != nil {
+		gi = *ws.WI
+	}
+	w := &World{T: t, Res: res, Tr: tr, WI: gi, Net: chainkit.NewNet(5, 3), SRIH: ws.SRIH, MTB: uint32(ws.MTB),
 		Node: variant(ws.Node, ws.GCP), MaxTx: ws.MaxTx, Cont: ws.Cont, sched: ws.Sched, P2P: ws.Jump > 0, SSI: ws.SSI}
 	if len(ws.Quiet) == 2 {
 		w.Quiet = [2]uint32{uint32(ws.Quiet[0]), uint32(ws.Quiet[1])}
@@ -127,22 +132,46 @@ func runWorld(t *testing.T, res *vh.Result, tr *vh.Trace, wi int, ws worldSpec, 
 			t.Fatal(err)
 		}
 		defer inner.Close()
-		w.afterCommit = func(b *Batch) {
-			if err := copyPath(live, filepath.Join(dir, fmt.Sprintf("snap-%d", b.Idx))); err != nil {
-				t.Fatalf("snapshot: %v", err)
-			}
-		}
 		var n atomic.Int64
-		w.openSnap = func(i int) (storage.Store, func(), error) {
-			work := filepath.Join(dir, fmt.Sprintf("open-%d-%d", i, n.Add(1)))
-			if err := copyPath(filepath.Join(dir, fmt.Sprintf("snap-%d", i)), work); err != nil {
-				return nil, nil, err
+		if ws.Back == "bolt" {
+			// BoltDB: the file is copied after every commit and the COPY is what gets reopened
+			w.afterCommit = func(b *Batch) {
+				if err := copyPath(live, filepath.Join(dir, fmt.Sprintf("snap-%d", b.Idx))); err != nil {
+					t.Fatalf("snapshot: %v", err)
+				}
 			}
-			st, err := openBackend(ws.Back, work)
-			if err != nil {
-				return nil, nil, err
+			w.openSnap = func(i int, _ Disk) (storage.Store, func(), error) {
+				work := filepath.Join(dir, fmt.Sprintf("open-%d-%d", i, n.Add(1)))
+				if err := copyPath(filepath.Join(dir, fmt.Sprintf("snap-%d", i)), work); err != nil {
+					return nil, nil, err
+				}
+				st, err := openBackend(ws.Back, work)
+				if err != nil {
+					return nil, nil, err
+				}
+				return st, func() { st.Close(); os.RemoveAll(work) }, nil
 			}
-			return st, func() { st.Close(); os.RemoveAll(work) }, nil
+		} else {
+			// LevelDB compacts in the background, so its directory cannot be copied consistently while it is open:
+			// the image is written into a fresh LevelDB as one batch, closed, and reopened
+			w.openSnap = func(i int, d Disk) (storage.Store, func(), error) {
+				work := filepath.Join(dir, fmt.Sprintf("open-%d-%d", i, n.Add(1)))
+				st, err := openBackend(ws.Back, work)
+				if err != nil {
+					return nil, nil, err
+				}
+				if err := st.PutChangeSet(d, nil); err != nil {
+					return nil, nil, err
+				}
+				if err := st.Close(); err != nil {
+					return nil, nil, err
+				}
+				st, err = openBackend(ws.Back, work)
+				if err != nil {
+					return nil, nil, err
+				}
+				return st, func() { st.Close(); os.RemoveAll(work) }, nil
+			}
 		}
 	}
 	var rr *runResult
